@@ -102,8 +102,12 @@ func Gen(t *rapid.T, big bool) Case {
 		case k < 11:
 			op.K = "connect"
 		case k < 12:
-			op.K = "noop"
-			op.Size = rapid.SampledFrom([]int{0, 100, 1000}).Draw(t, "noopsize")
+			if rapid.Bool().Draw(t, "noop-or-req") {
+				op.K = "req"
+			} else {
+				op.K = "noop"
+				op.Size = rapid.SampledFrom([]int{0, 100, 1000}).Draw(t, "noopsize")
+			}
 		case k < 14:
 			op.K = "disconnect"
 		case k < 16:
@@ -268,6 +272,7 @@ type Obs struct {
 	FinalPending                int
 	RacedFirstSends             bool // several first sends to a peer were released together
 	NoopBuilds                  int  // builds that reserved memory and added nothing
+	OutgoingRequests            int  // outgoing requests queued for a peer that is also being served
 	ExitWhileBuilding           bool // a queue finished winding down while a message for its peer was waiting for memory or being built
 	EventsAtFinal               int // allocator events recorded up to the final observation (the teardown that follows releases every peer)
 	IdleViolations              []string          // allocation non-zero while the queue was idle
@@ -490,6 +495,7 @@ func Run(t *testing.T, c Case) *Obs {
 		chans := map[[2]int]chan work{}
 		streams := map[[2]int]responseassembler.ResponseStream{}
 		blockN := 0
+		nreq := 0
 		marker := 0
 		pendingTx := 0
 		var mu sync.Mutex
@@ -577,6 +583,17 @@ func Run(t *testing.T, c Case) *Obs {
 			switch op.K {
 			case "tx":
 				issue(opIdx, op)
+			case "req":
+				// an outgoing request of this node to the peer (the peer is both served and asked): a size-0
+				// build that adds a request and attaches its party, without a response stream
+				obs.OutgoingRequests++
+				nreq++
+				rid := reqID(op.Peer%NPeers, 3+nreq%6)
+				q := gsmsg.NewCancelRequest(rid)
+				go h.AllocateAndBuildMessage(p, 0, func(b *messagequeue.Builder) {
+					b.AddRequest(q)
+					b.SetSubscriber(rid, nullSub{})
+				})
 			case "noop":
 				// a build that reserves memory and then adds nothing, as a transaction of a response stream that
 				// was closed in the meantime does
@@ -766,6 +783,9 @@ func Classify(v interface{ Label(string) }, c Case, o *Obs) {
 	if o.NoopBuilds > 0 {
 		v.Label("build-that-adds-nothing")
 	}
+	if o.OutgoingRequests > 0 {
+		v.Label("outgoing-request-in-the-same-queue")
+	}
 	if len(c.FailSend) > 0 {
 		v.Label("send-failure")
 	}
@@ -885,6 +905,7 @@ func GenFailBurst(t *rapid.T) Case {
 	c.Ops = append(c.Ops, part(req))
 	maybe(part(req))
 	maybe(part((req + 1) % NReqs))
+	maybe(Op{K: "req", Peer: p})
 	maybe(Op{K: "tx", Peer: 1 - p, Req: 0, Tx: []TxOp{{K: "block", Size: 400}}})
 	maybe(part(req))
 	c.Ops = append(c.Ops, Op{K: "wait", Peer: p})
